@@ -372,6 +372,17 @@ fn import_view(n: &SyntaxNode, out: &mut Vec<Vec<String>>) {
     }
 }
 
+fn import_has_comment(n: &SyntaxNode, out: &mut Vec<bool>) {
+    if n.kind() == K::ImportItems {
+        let mut ls = vec![];
+        leaves(n, &mut ls);
+        out.push(ls.iter().any(|l| is_comment(l.kind())));
+    }
+    for c in n.children() {
+        import_has_comment(c, out);
+    }
+}
+
 // ---------------------------------------------------------------------------------------------------------------------
 // C12: indentation is a multiple of the unit and the multiple does not depend on the unit
 fn exempt_lines(text: &str) -> Vec<bool> {
@@ -626,7 +637,19 @@ fn check_one(prop: &str, src: &str, width: usize, tab: usize, reorder: bool, max
                 None
             } else {
                 let off = Typstyle::new(cfg(width, tab, false)).format_content(src).ok()?;
-                for (x, y) in a.iter().zip(b.iter()) {
+                let mut flags = vec![];
+                import_has_comment(&root, &mut flags);
+                for (i, (x, y)) in a.iter().zip(b.iter()).enumerate() {
+                    // the name an item binds is its last identifier (`a.b.c` binds c, `p.q as n` binds n)
+                    let mut names: Vec<&str> = x.iter().map(|it| it.rsplit(' ').next().unwrap_or("")).collect();
+                    let n_items = names.len();
+                    names.sort();
+                    names.dedup();
+                    let dup = names.len() != n_items;
+                    let cmt = flags.get(i).copied().unwrap_or(false);
+                    if (dup || cmt) && x != y {
+                        return Some(format!("import with {} does not keep its order: {:?} -> {:?}", if dup { "a name bound twice" } else { "comments" }, x, y));
+                    }
                     let (mut xs, mut ys) = (x.clone(), y.clone());
                     xs.sort();
                     ys.sort();
